@@ -301,4 +301,24 @@ class Statement(object):
             jump_amount = relative_address - start_address - self.code_pkg.size
             self.code_pkg.additional = NumericValue(jump_amount, size_hint=self.pcr_size_hint)
 
+    def fit_operand_to_reserved_size(self):
+        """
+        The number of operand bytes of an instruction is set by the instruction
+        and its addressing mode, not by how the operand value happened to be
+        written. Renders the operand value in exactly the bytes that were
+        reserved for it, as a two's complement number if it is negative, and
+        raises a TranslationError if the value cannot be represented in them.
+        """
+        value = self.code_pkg.additional
+        if self.instruction.is_pseudo or not value.is_numeric():
+            return
+
+        width = self.code_pkg.size - self.code_pkg.op_code.byte_len() - self.code_pkg.post_byte.byte_len()
+        number = -value.int if value.is_negative() else value.int
+        if width < 1 or number < -(1 << (8 * width - 1)) or number >= (1 << (8 * width)):
+            raise TranslationError(
+                "Operand value [{}] does not fit in {} byte(s)".format(number, max(width, 0)), self
+            )
+        self.code_pkg.additional = NumericValue(number & ((1 << (8 * width)) - 1), size_hint=width * 2)
+
 # E N D   O F   F I L E #######################################################
